@@ -19,7 +19,19 @@ package sqlite
 //     tables outside the `modifies` list must not move);
 //   - the model is advanced.
 // The `requires` clauses are respected by the generator (mintinv, meltinv,
-// legalMint, legalMelt, len(B_s) >= len(sigs), DLEQ != nil); nothing else is.
+// legalMint, legalMelt, len(B_s) >= len(sigs), DLEQ != nil, UpdateMeltQuote's
+// state != Paid ==> preimage == "", SaveKeyset's InputFeePpk < 2^63); nothing
+// else is.
+// Storage faults: no fault is injected, so an unexpected error is a failure --
+// except in the two triaged situations where the real store deterministically
+// returns an error that the contracts count as a fault (db.faults may grow):
+//   (a) GetIssuedEcash / GetRedeemedEcash when a per-keyset total of the model is
+//       >= 2^63 (SQLite SUM: "integer overflow");
+//   (b) SaveProofs / AddPendingProofs / SaveBlindSignatures / SaveMintQuote /
+//       SaveMeltQuote when a uint64 argument field is >= 2^63 (database/sql:
+//       "uint64 values with high bit set are not supported").
+// In both, err != nil is accepted and the err != nil clauses are still enforced
+// (result nil / nothing stored); err == nil must satisfy the success clauses.
 // decode.msat / decode.hash / ln.fee are uninterpreted in the contracts; the
 // harness fixes one interpretation (tables vbMintReqs / vbMeltReqs, vbLnFee).
 //
@@ -50,27 +62,30 @@ import (
 )
 
 // ---- generator switches ------------------------------------------------------
-// Values >= 2^63 for persisted unsigned fields. No `requires` clause excludes
-// them (only SaveMintQuote's ensures mentions mq.Amount < 2^63), so they are in
-// the input space of the contracts; database/sql refuses a uint64 with the high
-// bit set, so the Save* call fails although the clause's condition holds. Set a
-// default to false once the contract bounds the field by a `requires` (or once
-// such an error is accepted as a storage fault). For experiments each switch can
-// be overridden by the environment: VERIF_DBCONF_<NAME>=0|1, and
-// VERIF_DBCONF_HUGE=0|1 sets all six Huge* switches at once.
+// Values >= 2^63 for persisted uint64 fields. No `requires` clause excludes them
+// (only SaveMintQuote's ensures mentions mq.Amount < 2^63); database/sql refuses a
+// uint64 with the high bit set, so the Save*/AddPendingProofs call returns an
+// error although the clause's logical condition holds. Triage: that error IS a
+// storage fault in the sense of the contracts (db.faults may grow on any call),
+// so the harness keeps generating such values and ACCEPTS an error of a
+// Save*/AddPendingProofs call iff some uint64 argument field is >= 2^63 -- the
+// err != nil clauses (nothing stored) are still checked by the read-back, and a
+// success must satisfy the ordinary success clauses. Without such a field an
+// unexpected error is a failure. Each switch can be overridden by the
+// environment: VERIF_DBCONF_<NAME>=0|1; VERIF_DBCONF_HUGE=0|1 sets all HUGE_*.
 var (
 	vbHugeProofAmount    = vbSwitch("HUGE_PROOF_AMOUNT", true)     // cashu.Proof.Amount (SaveProofs, AddPendingProofs)
 	vbHugeSigAmount      = vbSwitch("HUGE_SIG_AMOUNT", true)       // cashu.BlindedSignature.Amount
 	vbHugeMintExpiry     = vbSwitch("HUGE_MINT_EXPIRY", true)      // storage.MintQuote.Expiry
 	vbHugeMeltExpiry     = vbSwitch("HUGE_MELT_EXPIRY", true)      // storage.MeltQuote.Expiry
 	vbHugeMeltAmountMsat = vbSwitch("HUGE_MELT_AMOUNT_MSAT", true) // storage.MeltQuote.AmountMsat
-	vbHugeKeysetFee      = vbSwitch("HUGE_KEYSET_FEE", true)       // storage.DBKeyset.InputFeePpk
-	// UpdateMeltQuote has no requires tying preimage to state; with false the
-	// generator passes any preimage with any (legal) state.
-	vbMeltPreimageOnlyWhenPaid = vbSwitch("PREIMAGE_ONLY_WHEN_PAID", false)
-	// false: per-keyset totals may exceed 2^63-1 (two amounts of 2^62 in one
-	// keyset); true: at most one 2^62 amount per keyset id is generated.
-	vbNoKeysetSumOverflow = vbSwitch("NO_KEYSET_SUM_OVERFLOW", false)
+	// SaveKeyset `requires ks.InputFeePpk < 2^63`. true VIOLATES that requires (a
+	// Go `uint` is wrapped to a negative int64 by database/sql and GetKeysets then
+	// fails on every call); only for experiments.
+	vbHugeKeysetFee = vbSwitch("HUGE_KEYSET_FEE", false)
+	// UpdateMeltQuote `requires state != nut05.Paid ==> preimage == ""`. true
+	// respects it; false VIOLATES it (GetMeltQuote's meltinv(r0) then fails).
+	vbMeltPreimageOnlyWhenPaid = vbSwitch("PREIMAGE_ONLY_WHEN_PAID", true)
 )
 
 func vbSwitch(name string, def bool) bool {
@@ -373,6 +388,7 @@ type vbH struct {
 	reads    int
 	fails    []vbFailure // every distinct witness; cut to 8 when printed
 	seen     map[string]bool
+	faults   int // errors accepted as storage faults (see chkTotal, vbFaultOK)
 	diverged bool
 }
 
@@ -651,12 +667,23 @@ func (h *vbH) chkGetMeltQuoteByPaymentRequest(m *vbModel, inv string) []vbViol {
 	return v
 }
 
-func (h *vbH) chkTotal(name string, get func() (map[string]uint64, error), want *big.Int) []vbViol {
+// GetIssuedEcash / GetRedeemedEcash. perKeyset = the model's per-keyset totals
+// of the table the view sums over. SQLite's SUM raises "integer overflow" when a
+// per-keyset total does not fit int64; triage: that error is a storage fault, so
+// an error is accepted iff some per-keyset total is >= 2^63. A nil error must
+// always come with the right map.
+func (h *vbH) chkTotal(name string, get func() (map[string]uint64, error), want *big.Int, perKeyset map[string]*big.Int) []vbViol {
 	h.reads++
 	r, err := get()
 	var v []vbViol
 	if err != nil {
-		vbOwn(&v, "err-iff", "%s(): err=%v, want nil (err == nil <==> db.faults == old(db.faults)); ghost total %s", name, err, want)
+		for _, tot := range perKeyset {
+			if tot.BitLen() > 63 {
+				h.faults++
+				return v
+			}
+		}
+		vbOwn(&v, "err-iff", "%s(): err=%v, want nil (every per-keyset total < 2^63: %v; ghost total %s)", name, err, perKeyset, want)
 		return v
 	}
 	if r == nil {
@@ -669,9 +696,31 @@ func (h *vbH) chkTotal(name string, get func() (map[string]uint64, error), want 
 	if sum.Cmp(want) != 0 {
 		// own: the rows the view sums over are compared one by one through the
 		// other getters, so a wrong total with right rows is the getter's (view's) deviation
-		vbOwn(&v, "sum", "%s(): err == nil but mapsum(r0)=%s (r0=%v), want ghost total %s", name, sum, r, want)
+		vbOwn(&v, "sum", "%s(): err == nil but mapsum(r0)=%s (r0=%v), want ghost total %s (per keyset %v)", name, sum, r, want, perKeyset)
 	}
 	return v
+}
+
+func (m *vbModel) spentPerKeyset() map[string]*big.Int {
+	o := map[string]*big.Int{}
+	for _, r := range m.spent {
+		if o[r.Id] == nil {
+			o[r.Id] = new(big.Int)
+		}
+		o[r.Id].Add(o[r.Id], new(big.Int).SetUint64(r.Amount))
+	}
+	return o
+}
+
+func (m *vbModel) sigPerKeyset() map[string]*big.Int {
+	o := map[string]*big.Int{}
+	for _, r := range m.sig {
+		if o[r.Id] == nil {
+			o[r.Id] = new(big.Int)
+		}
+		o[r.Id].Add(o[r.Id], new(big.Int).SetUint64(r.Amount))
+	}
+	return o
 }
 
 func (h *vbH) chkGetSeed(m *vbModel) []vbViol {
@@ -773,10 +822,10 @@ func (h *vbH) readback(want *vbModel, op string, mods []string, errNil bool) {
 		{"ks", func() []vbTagged { return []vbTagged{{"GetKeysets", h.chkGetKeysets(want)}} }},
 		{"seed", func() []vbTagged { return []vbTagged{{"GetSeed", h.chkGetSeed(want)}} }},
 		{"issuedtotal", func() []vbTagged {
-			return []vbTagged{{"GetIssuedEcash", h.chkTotal("GetIssuedEcash", h.db.GetIssuedEcash, want.issued)}}
+			return []vbTagged{{"GetIssuedEcash", h.chkTotal("GetIssuedEcash", h.db.GetIssuedEcash, want.issued, want.sigPerKeyset())}}
 		}},
 		{"redeemedtotal", func() []vbTagged {
-			return []vbTagged{{"GetRedeemedEcash", h.chkTotal("GetRedeemedEcash", h.db.GetRedeemedEcash, want.redeemed)}}
+			return []vbTagged{{"GetRedeemedEcash", h.chkTotal("GetRedeemedEcash", h.db.GetRedeemedEcash, want.redeemed, want.spentPerKeyset())}}
 		}},
 	}
 	for _, tb := range tables {
@@ -909,18 +958,8 @@ func (h *vbH) genProofs(tab map[string]storage.DBProof) (cashu.Proofs, string) {
 		ps = nil
 	}
 	var d []string
-	has62 := map[string]bool{}
-	for _, r := range tab {
-		has62[r.Id] = has62[r.Id] || r.Amount >= 1<<62
-	}
 	for _, i := range idx {
 		p := cashu.Proof{Amount: h.amount(vbAmounts, vbHugeProofAmount), Id: vbPick(h, vbKeysetIds), Secret: vbSecrets[i], C: vbPick(h, vbCs), Witness: vbPick(h, vbWitnesses)}
-		if vbNoKeysetSumOverflow && p.Amount == 1<<62 {
-			if has62[p.Id] {
-				p.Amount = 1
-			}
-			has62[p.Id] = true
-		}
 		ps = append(ps, p)
 		d = append(d, fmt.Sprintf("s%d:%s:%s:%q:%q", i, vbAmt(p.Amount), p.Id, p.C, p.Witness))
 	}
@@ -964,6 +1003,17 @@ func vbBatchCond(ps cashu.Proofs, tab map[string]storage.DBProof) (cond, huge bo
 	return
 }
 
+// vbFaultOK: err != nil although the clause's logical condition holds. Accepted
+// as a storage fault iff some uint64 argument field is >= 2^63 (database/sql
+// refuses it); the caller's read-back still checks that nothing was stored.
+func (h *vbH) vbFaultOK(err error, cond, huge bool) bool {
+	if err != nil && cond && huge {
+		h.faults++
+		return true
+	}
+	return false
+}
+
 func vbHugeTag(huge bool, field string) string {
 	if huge {
 		return "#" + field + ">=2^63"
@@ -976,8 +1026,8 @@ func (h *vbH) opSaveProofs() {
 	cond, huge, sum := vbBatchCond(ps, h.m.spent)
 	err := h.db.SaveProofs(ps)
 	h.note("SaveProofs(%s)=%s", d, vbErrStr(err))
-	if (err == nil) != cond {
-		h.fail("SaveProofs/err-iff"+vbHugeTag(huge && err != nil, "Amount"), "err=%v but (no secret of ps spent before && Ys pairwise distinct)=%v", err, cond)
+	if (err == nil) != cond && !h.vbFaultOK(err, cond, huge) {
+		h.fail("SaveProofs/err-iff", "err=%v but (no secret of ps spent before && Ys pairwise distinct)=%v (some Amount >= 2^63: %v)", err, cond, huge)
 	}
 	want := h.m.clone()
 	if err == nil {
@@ -997,8 +1047,8 @@ func (h *vbH) opAddPendingProofs() {
 	cond, huge, _ := vbBatchCond(ps, h.m.pending)
 	err := h.db.AddPendingProofs(ps, q)
 	h.note("AddPendingProofs(%s,%q)=%s", d, q, vbErrStr(err))
-	if (err == nil) != cond {
-		h.fail("AddPendingProofs/err-iff"+vbHugeTag(huge && err != nil, "Amount"), "err=%v but (no secret of ps pending before && Ys pairwise distinct)=%v", err, cond)
+	if (err == nil) != cond && !h.vbFaultOK(err, cond, huge) {
+		h.fail("AddPendingProofs/err-iff", "err=%v but (no secret of ps pending before && Ys pairwise distinct)=%v (some Amount >= 2^63: %v)", err, cond, huge)
 	}
 	want := h.m.clone()
 	if err == nil {
@@ -1038,19 +1088,9 @@ func (h *vbH) opSaveBlindSignatures() {
 	cond, huge := true, false
 	sum := new(big.Int)
 	seen := map[string]bool{}
-	has62 := map[string]bool{}
-	for _, r := range h.m.sig {
-		has62[r.Id] = has62[r.Id] || r.Amount >= 1<<62
-	}
 	for _, i := range idx {
 		s := cashu.BlindedSignature{Amount: h.amount(vbAmounts, vbHugeSigAmount), C_: vbPick(h, []string{"C0", "C1"}), Id: vbPick(h, vbKeysetIds),
 			DLEQ: &cashu.DLEQProof{E: vbPick(h, vbDleqStrs), S: vbPick(h, vbDleqStrs), R: "r-not-stored"}}
-		if vbNoKeysetSumOverflow && s.Amount == 1<<62 {
-			if has62[s.Id] {
-				s.Amount = 1
-			}
-			has62[s.Id] = true
-		}
 		sigs = append(sigs, s)
 		Bs = append(Bs, vbB_s[i])
 		d = append(d, fmt.Sprintf("%s:%s:%s:%s:%q:%q", vbB_s[i], vbAmt(s.Amount), s.Id, s.C_, s.DLEQ.E, s.DLEQ.S))
@@ -1069,8 +1109,8 @@ func (h *vbH) opSaveBlindSignatures() {
 	}
 	err := h.db.SaveBlindSignatures(Bs, sigs)
 	h.note("SaveBlindSignatures([%s]%s)=%s", strings.Join(d, " "), extra, vbErrStr(err))
-	if (err == nil) != cond {
-		h.fail("SaveBlindSignatures/err-iff"+vbHugeTag(huge && err != nil, "Amount"), "err=%v but (no B_s[i<len(sigs)] signed before && pairwise distinct)=%v", err, cond)
+	if (err == nil) != cond && !h.vbFaultOK(err, cond, huge) {
+		h.fail("SaveBlindSignatures/err-iff", "err=%v but (no B_s[i<len(sigs)] signed before && pairwise distinct)=%v (some Amount >= 2^63: %v)", err, cond, huge)
 	}
 	want := h.m.clone()
 	if err == nil {
@@ -1109,8 +1149,8 @@ func (h *vbH) opSaveMintQuote() {
 	if err == nil && !cond {
 		h.fail("SaveMintQuote/ok-only-if", "err == nil but !old(db.mq)[mq.Id]=%v, mq.Amount=%d", !exists, mq.Amount)
 	}
-	if cond && err != nil {
-		h.fail("SaveMintQuote/ok-if"+vbHugeTag(mq.Expiry >= vbHuge, "Expiry"), "err=%v although !old(db.mq)[mq.Id] && mq.Amount < 2^63 (Expiry=%d)", err, mq.Expiry)
+	if cond && err != nil && !h.vbFaultOK(err, cond, mq.Expiry >= vbHuge) {
+		h.fail("SaveMintQuote/ok-if", "err=%v although !old(db.mq)[mq.Id] && mq.Amount < 2^63 (Expiry=%d)", err, mq.Expiry)
 	}
 	want := h.m.clone()
 	if err == nil {
@@ -1175,14 +1215,9 @@ func (h *vbH) opSaveMeltQuote() {
 	_, exists := h.m.melt[mq.Id]
 	err := h.db.SaveMeltQuote(mq)
 	h.note("SaveMeltQuote(%+v)=%s", mq, vbErrStr(err))
-	if (err == nil) != !exists {
-		tag := ""
-		if err != nil {
-			if tag = vbHugeTag(mq.Expiry >= vbHuge, "Expiry"); tag == "" {
-				tag = vbHugeTag(mq.AmountMsat >= vbHuge, "AmountMsat")
-			}
-		}
-		h.fail("SaveMeltQuote/err-iff"+tag, "err=%v but !old(db.melt)[mq.Id]=%v", err, !exists)
+	huge := mq.Expiry >= vbHuge || mq.AmountMsat >= vbHuge || mq.Amount >= vbHuge || mq.FeeReserve >= vbHuge
+	if (err == nil) != !exists && !h.vbFaultOK(err, !exists, huge) {
+		h.fail("SaveMeltQuote/err-iff", "err=%v but !old(db.melt)[mq.Id]=%v (some uint64 field >= 2^63: %v)", err, !exists, huge)
 	}
 	want := h.m.clone()
 	if err == nil {
@@ -1209,7 +1244,7 @@ func (h *vbH) opUpdateMeltQuote() {
 		}
 	}
 	pre := vbPick(h, vbPreimages)
-	if vbMeltPreimageOnlyWhenPaid && st != nut05.Paid {
+	if vbMeltPreimageOnlyWhenPaid && st != nut05.Paid { // requires state != nut05.Paid ==> preimage == ""
 		pre = ""
 	}
 	err := h.db.UpdateMeltQuote(id, pre, st)
@@ -1351,11 +1386,11 @@ var vbOps = []vbOp{
 	}},
 	{"GetIssuedEcash", 1, func(h *vbH) {
 		h.note("GetIssuedEcash()")
-		h.getterOp("GetIssuedEcash", h.chkTotal("GetIssuedEcash", h.db.GetIssuedEcash, h.m.issued))
+		h.getterOp("GetIssuedEcash", h.chkTotal("GetIssuedEcash", h.db.GetIssuedEcash, h.m.issued, h.m.sigPerKeyset()))
 	}},
 	{"GetRedeemedEcash", 1, func(h *vbH) {
 		h.note("GetRedeemedEcash()")
-		h.getterOp("GetRedeemedEcash", h.chkTotal("GetRedeemedEcash", h.db.GetRedeemedEcash, h.m.redeemed))
+		h.getterOp("GetRedeemedEcash", h.chkTotal("GetRedeemedEcash", h.db.GetRedeemedEcash, h.m.redeemed, h.m.spentPerKeyset()))
 	}},
 	{"GetSeed", 1, func(h *vbH) {
 		h.note("GetSeed()")
@@ -1433,8 +1468,8 @@ func TestVerifBoundedDBConf(t *testing.T) {
 	for _, o := range vbOps {
 		cs = append(cs, fmt.Sprintf("%s=%d", o.name, counts[o.name]))
 	}
-	t.Logf("seed=%d sequences=%d ops/sequence=%d checked calls=%d (getter calls incl. read-back: %d); per method: %s", seed, nseq, nops, h.cases, h.reads, strings.Join(cs, " "))
-	// at most 8 failures: witnesses that are not about a >= 2^63 argument first
+	t.Logf("seed=%d sequences=%d ops/sequence=%d checked calls=%d (getter calls incl. read-back: %d; errors accepted as storage faults: %d); per method: %s", seed, nseq, nops, h.cases, h.reads, h.faults, strings.Join(cs, " "))
+	// at most 8 failures: witnesses not tagged with a requires-violating switch first
 	sort.SliceStable(h.fails, func(a, b int) bool {
 		return !strings.Contains(h.fails[a].Witness, "#") && strings.Contains(h.fails[b].Witness, "#")
 	})
